@@ -21,3 +21,10 @@ def run(rep: Report, repo: Repo, tier: str) -> None:
     fsrules.rule_isolation(rep, repo, "C13-R5")
     fsrules.rule_listing_before_creation(rep, repo, "C13-R6")
     fsrules.rule_index_always_written(rep, repo, "C13-R7")
+    # "under the output directory": the directory the user named, resolved when the run starts
+    from .c16 import rule_output_dir_resolution
+    rule_output_dir_resolution(rep, repo, "C13-R8")
+    # "processed are the non-excluded files ... of every non-excluded subdirectory"
+    fsrules.rule_match_sites(rep, repo, "C13-R9")
+    # ... and that set does not depend on where (or whether) output is written
+    fsrules.rule_mode_independence(rep, repo, "C13-R10")
